@@ -73,10 +73,70 @@ Definition dt_cmp (c : cmp) (a b : adt) : bool := z_cmp c (instant a) (instant b
 Definition dt_date (d : adt) : adt := {| wall := wall d - wall d mod US_DAY; off := off d |}.
 Definition dt_time (d : adt) : Z := wall d mod US_DAY.
 
-(* wall-clock fields that do not need the civil calendar *)
-Inductive field := FHour | FMinute | FSecond | FMicrosecond | FWeekday.
+(* civil calendar (proleptic Gregorian), as CPython's _ymd2ord / _ord2ymd with the day
+   number counted from 0001-01-01 = 0 *)
+Definition is_leap (y : Z) : bool := (y mod 4 =? 0) && (negb (y mod 100 =? 0) || (y mod 400 =? 0)).
+Definition days_in_month (y m : Z) : Z :=
+  match m with
+  | 2 => if is_leap y then 29 else 28
+  | 4 | 6 | 9 | 11 => 30
+  | _ => 31
+  end.
+Definition days_before_month_common (m : Z) : Z :=
+  match m with
+  | 1 => 0 | 2 => 31 | 3 => 59 | 4 => 90 | 5 => 120 | 6 => 151 | 7 => 181
+  | 8 => 212 | 9 => 243 | 10 => 273 | 11 => 304 | 12 => 334 | _ => 365
+  end.
+Definition days_before_month (y m : Z) : Z :=
+  days_before_month_common m + (if (2 <? m) && is_leap y then 1 else 0).
+Definition days_before_year (y : Z) : Z := let p := y - 1 in p * 365 + p / 4 - p / 100 + p / 400.
+Definition days_from_civil (y m d : Z) : Z := days_before_year y + days_before_month y m + d - 1.
+
+(* one 400-year era: day r in [0, 146097) of the era starting at year 1 *)
+Definition civil_era (r : Z) : Z * Z * Z :=
+  let n100 := r / 36524 in let n := r mod 36524 in
+  let n4 := n / 1461 in let n := n mod 1461 in
+  let n1 := n / 365 in let n := n mod 365 in
+  let year := 1 + n100 * 100 + n4 * 4 + n1 in
+  if (n1 =? 4) || (n100 =? 4) then (year - 1, 12, 31)
+  else
+    let leap := (n1 =? 3) && (negb (n4 =? 24) || (n100 =? 3)) in
+    let month := (n + 50) / 32 in
+    let preceding := days_before_month_common month + (if (2 <? month) && leap then 1 else 0) in
+    if n <? preceding then
+      let month' := month - 1 in
+      let dim := match month' with 2 => if leap then 29 else 28 | 4 | 6 | 9 | 11 => 30 | _ => 31 end in
+      (year, month', n - (preceding - dim) + 1)
+    else (year, month, n - preceding + 1).
+Definition civil_from_days (n : Z) : Z * Z * Z :=
+  let '(y, m, d) := civil_era (n mod 146097) in (y + 400 * (n / 146097), m, d).
+
+(* [range_all p f lo]: f holds on [lo, lo + p) (binary splitting; used to close the era by computation) *)
+Fixpoint range_all (p : positive) (f : Z -> bool) (lo : Z) : bool :=
+  match p with
+  | xH => f lo
+  | xO q => range_all q f lo && range_all q f (lo + Zpos q)
+  | xI q => f lo && range_all q f (lo + 1) && range_all q f (lo + 1 + Zpos q)
+  end.
+Definition era_day_ok (r : Z) : bool :=
+  let '(y, m, d) := civil_era r in
+  (days_from_civil y m d =? r) && (1 <=? y) && (y <=? 400) && (1 <=? m) && (m <=? 12) && (1 <=? d) && (d <=? days_in_month y m)
+  && ((145731 <=? r) || (y <=? 399)).      (* the last 366 days of the era are its year 400 *)
+
+Definition valid_civil (y m d : Z) : bool :=
+  (1 <=? y) && (y <=? 9999) && (1 <=? m) && (m <=? 12) && (1 <=? d) && (d <=? days_in_month y m).
+Definition valid_clock (h mi s us : Z) : bool :=
+  (0 <=? h) && (h <? 24) && (0 <=? mi) && (mi <? 60) && (0 <=? s) && (s <? 60) && (0 <=? us) && (us <? 1000000).
+Definition wall_of_fields (y m d h mi s us : Z) : Z :=
+  days_from_civil y m d * US_DAY + h * 3600000000 + mi * 60000000 + s * 1000000 + us.
+
+(* the fields of a wall reading *)
+Inductive field := FYear | FMonth | FDay | FHour | FMinute | FSecond | FMicrosecond | FWeekday.
 Definition dt_field (f : field) (w : Z) : Z :=
   match f with
+  | FYear => fst (fst (civil_from_days (w / US_DAY)))
+  | FMonth => snd (fst (civil_from_days (w / US_DAY)))
+  | FDay => snd (civil_from_days (w / US_DAY))
   | FHour => (w mod US_DAY) / 3600000000
   | FMinute => (w mod 3600000000) / 60000000
   | FSecond => (w mod 60000000) / US_SECOND
@@ -175,6 +235,19 @@ Definition y_date (h : hdt) : val := VDt (dt_date (conv h)).
 Definition y_time (h : hdt) : val := VTs (dt_time (conv h)).
 Definition y_field (f : field) (h : hdt) : val := VInt (dt_field f (hwall h)).
 
+(* datetime(year, month, day, hour, minute, second, microsecond, offset) *)
+Definition y_build (y m d h mi s us o : Z) : val :=
+  if valid_civil y m d && valid_clock h mi s us
+  then VDt {| wall := wall_of_fields y m d h mi s us; off := o |} else VErr RangeErr.
+
+(* dt.replace(year => ..., ..., offset => ...): None = keep *)
+Definition keep (o : option Z) (x : Z) : Z := match o with Some v => v | None => x end.
+Definition y_replace (h : hdt) (ry rm rd rh rmi rs rus ro : option Z) : val :=
+  let d := conv h in let w := wall d in
+  y_build (keep ry (dt_field FYear w)) (keep rm (dt_field FMonth w)) (keep rd (dt_field FDay w))
+          (keep rh (dt_field FHour w)) (keep rmi (dt_field FMinute w)) (keep rs (dt_field FSecond w))
+          (keep rus (dt_field FMicrosecond w)) (keep ro (off d)).
+
 Definition y_unit (u : unit_) (t : Z) : val :=
   match u with UMicroseconds => VInt t | _ => VRat t (unit_div u) end.
 Definition y_timespan (d h m s ms us : Z) : val := mk_ts (timespan_of d h m s ms us).
@@ -208,6 +281,8 @@ Inductive op :=
 | OpDate (h : hdt)
 | OpTime (h : hdt)
 | OpField (f : field) (h : hdt)
+| OpBuild (y m d h mi s us o : Z)
+| OpReplace (h : hdt) (ry rm rd rh rmi rs rus ro : option Z)
 | OpUnit (u : unit_) (t : Z)
 | OpTimespan (d h m s ms us : Z)
 | OpTsCmp (c : cmp) (a b : Z)
@@ -227,6 +302,8 @@ Definition eval_with (D : decls) (o : op) : val :=
   | OpDate h => y_date h
   | OpTime h => y_time h
   | OpField f h => y_field f h
+  | OpBuild y m d h mi s us o => y_build y m d h mi s us o
+  | OpReplace h ry rm rd rh rmi rs rus ro => y_replace h ry rm rd rh rmi rs rus ro
   | OpUnit u t => y_unit u t
   | OpTimespan d h m s ms us => y_timespan d h m s ms us
   | OpTsCmp c a b => VBool (z_cmp c a b)
@@ -289,6 +366,7 @@ Definition op_map (f : hdt -> hdt) (o : op) : op :=
   | OpDate h => OpDate (f h)
   | OpTime h => OpTime (f h)
   | OpField g h => OpField g (f h)
+  | OpReplace h ry rm rd rh rmi rs rus ro => OpReplace (f h) ry rm rd rh rmi rs rus ro
   | _ => o
   end.
 
